@@ -228,7 +228,7 @@ static void eval(Ctx & cx, const std::vector<int> & seq)
   bool good = run_sequence(seq, f, cx.st, rej, ok);
   if (!good) { record(cx, seq, f); return; }
   if (rej && ok) cx.rep.nt(seq_json(seq));
-  if (rej && ok && cx.rep.samples.size() < 5 && (cx.rep.evaluations % 9973) == 0) cx.rep.sample("{\"calls\":" + jstr(seq_str(seq)) + "}");
+  if (rej && ok && cx.rep.samples.size() < 5 && (cx.rep.nontrivial.size() % 7) == 1) cx.rep.sample("{\"calls\":" + jstr(seq_str(seq)) + "}");
 }
 
 int main(int argc, char ** argv)
